@@ -15,6 +15,7 @@ import os
 import random
 import sysconfig
 import textwrap
+from pathlib import Path
 
 from vf.core.util import case_watchdog, visit_source
 from vf.gen.modules import Gen
@@ -33,14 +34,24 @@ LEVEL_TEXT = ("Every generated module is visited by the real visitor under a pas
               "every scope (names, kinds, parents, surviving duplicate), spans (read from CPython's ast nodes), source "
               "slices, decorators, labels, docstrings and their spans, attribute docstrings, runtime flag, import map and "
               "exports are compared with an independent reference model; visibility predicates are compared with the "
-              "documented decision table; the event trace is checked offline; any exception is a violation.")
+              "documented decision table; the event trace is checked offline; any exception is a violation. Every derived "
+              "read-only view of every object (Object.lines/.source/.lines_collection slices, Docstring.source/.lines for module, "
+              "class, function, property and attribute docstrings incl. shared and forwarded ones, path/canonical_path, item access "
+              "by dotted and tuple key, module/package/filepath/relative paths, is_*/is_kind, module-shape predicates, len, "
+              "has_labels, filter_members, has_docstring(s), imports_future_annotations) is compared with CPython's view of the text "
+              "and the object's place in the tree - with the caller's LinesCollection given to visit(), through the loader with "
+              "store_source=True, and with nothing stored (empty, never text), in the model and the totality workloads alike.")
 LEVEL_NOTE = ("trusted: CPython ast (spans, parse), the reference model (~200 lines, from the statement), the generator's "
               "renderer only through CPython's parse of its output; domain restrictions listed in DESIGN C01")
 TECHNIQUE = "runtime monitoring: reference-model monitor over CPython ast + extension-event trace checker + totality monitor"
 REQUIRED_COUNTERS = ["loader_sources_compared", "modules_visited", "scopes_compared", "members_compared", "spans_compared", "slices_reparsed", "labels_compared",
                      "docstrings_compared", "visibility_rows_compared", "traces_checked", "events_recorded",
                      "totality_files_visited", "conditional_reassignments_seen", "displaced_duplicates_seen",
-                     "modules_loaded_through_loader"]
+                     "modules_loaded_through_loader",
+                     # derived views (every public read-only view of a span / path / member table, three ways of keeping the source)
+                     "object_lines_views_compared", "docstring_source_views_compared", "attribute_docstring_source_views_compared",
+                     "forwarded_docstring_source_views", "unstored_object_views_compared", "unstored_docstring_views_compared",
+                     "item_access_compared", "owner_views_compared", "kind_predicates_compared", "has_docstrings_compared"]
 EXHAUSTIVE = {"quick": False, "thorough": False}
 ASSUMPTIONS = ["else-branches of `if TYPE_CHECKING` and TYPE_CHECKING blocks nested in other blocks are not generated",
                "labels are compared exactly only for names bound once in their scope"]
@@ -486,6 +497,11 @@ def compare_scope(rec, gscope, rscope: RScope, lines: list[str], src: str) -> tu
     if dict(gscope.imports) != rscope.imports:
         return (f"imports map of {rscope.path}", dict(gscope.imports), rscope.imports)
     if rscope.kind == "module":
+        fut = rscope.members.get("annotations")
+        want_fut = fut is not None and fut.kind == "alias" and fut.target == "__future__.annotations"
+        rec.count("future_annotations_compared")
+        if bool(gscope.imports_future_annotations) != want_fut:
+            return (f"{rscope.path}: imports_future_annotations", gscope.imports_future_annotations, want_fut)
         gexp = None if gscope.exports is None else [e if isinstance(e, str) else e.name for e in gscope.exports]
         if gexp != rscope.exports:
             return (f"exports of {rscope.path}", gexp, rscope.exports)
@@ -516,6 +532,246 @@ def classify(src: str, what: str, rscope: RScope | None) -> tuple[str | None, li
     return None, tried
 
 
+# -- derived views ---------------------------------------------------------------------------------
+# Every public read-only view the models compute from a span, the file path, the parent chain or the member table must
+# agree with CPython's own view of the same text (its line numbering, its string-statement nodes) and with the place the
+# object occupies in the tree.  Nothing here reads griffe's answer as the expectation: lines come from ``src.split("\n")``,
+# docstring spans and values from ``ast`` nodes, paths / owners from the walk itself, file paths from what the harness
+# passed in.
+KIND_OF_CLASS = {"Module": "module", "Class": "class", "Function": "function", "Attribute": "attribute"}
+ALL_KINDS = ("module", "class", "function", "attribute", "alias")
+
+
+def python_lines(src: str) -> list[str]:
+    """The lines of a file as Python numbers them: only "\\n" ends a line; a final newline opens no further line."""
+    lines = src.split("\n")
+    if not lines[-1]:
+        lines.pop()
+    return lines
+
+
+def string_statements(tree: ast.AST) -> dict[tuple[int, int], list[str]]:
+    """CPython's view of every bare string statement: (first line, last line) -> values."""
+    out: dict[tuple[int, int], list[str]] = {}
+    for n in ast.walk(tree):
+        if isinstance(n, ast.Expr) and isinstance(n.value, ast.Constant) and isinstance(n.value.value, str):
+            out.setdefault((n.value.lineno, n.value.end_lineno), []).append(n.value.value)
+    return out
+
+
+def walk_tree(obj, chain: tuple[str, ...] = ()):  # noqa: ANN001, ANN201
+    yield obj, chain
+    if not obj.is_alias:
+        for name, m in obj.members.items():
+            yield from walk_tree(m, (*chain, name))
+
+
+def expected_has_docstrings(obj, memo: dict):  # noqa: ANN001, ANN201
+    """True / False / None (undetermined) from the primary fields only: own docstring, member table, imports map, exports."""
+    if obj.docstring is not None:
+        return True
+    undetermined = False
+    exports = [e if isinstance(e, str) else e.name for e in (obj.exports or [])] if obj.kind.value == "module" else []
+    for name, m in obj.members.items():
+        imported = name in obj.imports
+        if m.is_alias:
+            # an imported alias counts only when public, i.e. listed in a non-empty __all__ (then its target decides: not judged)
+            if not imported or name in exports:
+                undetermined = True
+            continue
+        if imported:
+            public = (name in exports) if exports else not (name.startswith("_") and not (name.startswith("__") and name.endswith("__")))
+            if exports == [] and obj.kind.value == "module" and obj.exports is not None:
+                undetermined = True  # empty __all__: ambiguous corner (DESIGN C01)
+                continue
+            if exports:
+                if not public:
+                    continue
+            else:
+                continue  # imported and no __all__: never public
+        sub = memo[id(m)]
+        if sub:
+            return True
+        if sub is None:
+            undetermined = True
+    return None if undetermined else False
+
+
+def lines_and_docstring_views(rec, obj, root, where: str, chain: tuple, tag: str, pylines: list[str], strs: dict, stored: bool,  # noqa: ANN001, C901, PLR0911, PLR0912, PLR0913
+                              collection, has_docs: dict, attempt) -> tuple | None:  # noqa: ANN001
+    kind = KIND_OF_CLASS.get(type(obj).__name__)
+    # -- lines of the object
+    if collection is not None and obj.lines_collection is not collection:
+        return (tag + f"{where}: lines_collection is not the collection given to visit()", repr(obj.lines_collection), repr(collection))
+    if obj is root:
+        want_lines = pylines
+    elif obj.lineno is None or obj.endlineno is None:
+        want_lines = []
+    else:
+        want_lines = pylines[obj.lineno - 1:obj.endlineno]
+    if not stored:
+        want_lines = []
+    got_lines, err = attempt(f"{where}: lines", lambda: obj.lines)  # noqa: B023
+    if err or got_lines != want_lines:
+        return err or (tag + f"{where}: .lines is not the text of lines {obj.lineno}-{obj.endlineno} of the file" + (
+            "" if stored else " (source not stored: expected empty)"), got_lines[:6], want_lines[:6])
+    got_src, err = attempt(f"{where}: source", lambda: obj.source)  # noqa: B023
+    if err or got_src != textwrap.dedent("\n".join(want_lines)):
+        return err or (tag + f"{where}: .source is not the dedented text of lines {obj.lineno}-{obj.endlineno}",
+                       got_src[:300], textwrap.dedent("\n".join(want_lines))[:300])
+    if stored and obj is not root and obj.lineno is not None and obj.endlineno is not None:
+        got, err = attempt(f"{where}: lines_collection[filepath]", lambda: obj.lines_collection[obj.filepath][obj.lineno - 1:obj.endlineno])  # noqa: B023
+        if err or got != want_lines:
+            return err or (tag + f"{where}: lines_collection[filepath] sliced by the span", got[:6], want_lines[:6])
+    rec.count("object_lines_views_compared" if stored else "unstored_object_views_compared")
+    # -- docstring views
+    doc = obj.docstring
+    if bool(obj.has_docstring) != (doc is not None):
+        return (tag + f"{where}: has_docstring", obj.has_docstring, doc is not None)
+    want_has = has_docs[id(obj)]
+    if want_has is not None:
+        got, err = attempt(f"{where}: has_docstrings", lambda: obj.has_docstrings)  # noqa: B023
+        if err or bool(got) != want_has:
+            return err or (tag + f"{where}: has_docstrings", got, want_has)
+        rec.count("has_docstrings_compared")
+    if doc is None:
+        return None
+    owner = doc.parent
+    if owner is None or owner.docstring is not doc or owner.parent is not obj.parent:
+        return (tag + f"{where}: docstring.parent is neither the object nor a name bound by the same statement", repr(owner), repr(obj))
+    if doc.lineno is None or doc.endlineno is None:
+        return (tag + f"{where}: docstring without line numbers", (doc.lineno, doc.endlineno), "the span of a string statement")
+    values = strs.get((doc.lineno, doc.endlineno))
+    if not values:
+        return (tag + f"{where}: the docstring span is not that of a string statement of the source", (doc.lineno, doc.endlineno), None)
+    cleaned = [inspect.cleandoc(v.rstrip()) for v in values]
+    if doc.value not in cleaned:
+        return (tag + f"{where}: docstring value is not the string statement at its span", doc.value[:200], cleaned[0][:200])
+    if doc.lines != doc.value.split("\n") or doc.lines != cleaned[cleaned.index(doc.value)].split("\n"):
+        return (tag + f"{where}: Docstring.lines", doc.lines[:6], doc.value.split("\n")[:6])
+    attr_doc = kind == "attribute" and not (obj.lineno is not None and obj.lineno <= doc.lineno and doc.endlineno <= (obj.endlineno or 0))
+    if stored:
+        want_text = "\n".join(pylines[doc.lineno - 1:doc.endlineno])
+        got, err = attempt(f"{where}: Docstring.source", lambda: doc.source)  # noqa: B023
+        if err or got != want_text:
+            return err or (tag + f"{where}: Docstring.source is not the text of lines {doc.lineno}-{doc.endlineno} of the file",
+                           got[:300], want_text[:300])
+        rec.count("docstring_source_views_compared")
+        if attr_doc:
+            rec.count("attribute_docstring_source_views_compared")
+            if len(chain) > 1:
+                rec.count("nested_attribute_docstring_source_views")
+            if doc.endlineno < (obj.lineno or 0):
+                rec.count("forwarded_docstring_source_views")
+    else:
+        # nothing stored: whether that is an error or an empty text is not said anywhere (Object.lines is empty,
+        # Docstring.source raises) - but it can never be some text
+        try:
+            got = doc.source
+        except (KeyError, ValueError):
+            got = ""
+        if got != "":
+            return (tag + f"{where}: Docstring.source returns text although no source is stored", got[:300], "")
+        rec.count("unstored_docstring_views_compared")
+    return None
+
+
+def sweep_views(rec, root, src: str, tree: ast.AST, *, stored: bool, how: str, filepath, rel_pkg: str,  # noqa: ANN001, C901, PLR0911, PLR0912, PLR0915
+                collection=None, init_module: bool = False, pylines: list[str] | None = None, light: bool = False) -> tuple | None:
+    """Compare every derived view of every object under ``root`` with Python's view of ``src``; return (what, observed, expected)."""
+    pylines = python_lines(src) if pylines is None else pylines
+    strs = string_statements(tree)
+    cwd = Path.cwd()
+    want_rel = filepath.relative_to(cwd) if filepath.is_relative_to(cwd) else filepath
+    tag = f"[{how}] "
+
+    def attempt(what: str, fn):  # noqa: ANN001, ANN202
+        try:
+            return fn(), None
+        except Exception as exc:  # noqa: BLE001
+            return None, (tag + what + " raised", f"{type(exc).__name__}: {exc}"[:300], "a value")
+
+    # post-order tables (one pass): documented size of every object, expected has_docstrings
+    size: dict[int, int] = {}
+    has_docs: dict[int, bool | None] = {}
+
+    def measure(o) -> int:  # noqa: ANN001
+        # documented: "the number of members in this object, recursively" and "the length of an alias is always 1"
+        if o.is_alias:
+            return 1
+        n = sum(1 + measure(m) for m in o.members.values())
+        size[id(o)] = n
+        has_docs[id(o)] = expected_has_docstrings(o, has_docs)
+        return n
+
+    measure(root)
+    for index, (obj, chain) in enumerate(walk_tree(root)):
+        where = ".".join((root.name, *chain))
+        rec.count("derived_view_objects")
+        if light:  # the same tree shape as the full sweep of the stored variant: only the views that read the source
+            problem = None if obj.is_alias else lines_and_docstring_views(rec, obj, root, where, chain, tag, pylines, strs, stored,
+                                                                          collection, has_docs, attempt)
+            if problem:
+                return problem
+            continue
+        # -- place in the tree: paths, item access by dotted / tuple key, owner module / package / file
+        got, err = attempt(f"{where}: path", lambda: obj.path)  # noqa: B023
+        if err or got != where:
+            return err or (tag + f"{where}: path", got, where)
+        if chain:
+            for key in (chain, ".".join(chain)):
+                for api in ("__getitem__", "get_member"):
+                    got, err = attempt(f"{where}: {api}({key!r}) from the module", lambda: getattr(root, api)(key))  # noqa: B023
+                    if err or got is not obj:
+                        return err or (tag + f"{where}: {api}({key!r}) from the module is not the member itself", repr(got), repr(obj))
+            rec.count("item_access_compared")
+            direct = obj.parent
+            if direct is None or direct.members.get(chain[-1]) is not obj:
+                return (tag + f"{where}: parent is not its container", repr(direct), ".".join((root.name, *chain[:-1])))
+        if obj.is_alias:
+            continue  # (the views of an alias are those of its target: alias resolution is not this property's subject)
+        kind = KIND_OF_CLASS.get(type(obj).__name__)
+        preds = {k: bool(getattr(obj, f"is_{k}")) for k in ("module", "class", "function", "attribute")}
+        preds["alias"] = bool(obj.is_alias)
+        want_preds = {k: k == kind for k in preds}
+        is_kind = {k: obj.is_kind(k) for k in ALL_KINDS}
+        if preds != want_preds or obj.kind.value != kind or is_kind != {k: k == kind for k in ALL_KINDS} or not obj.is_kind(
+                {kind, "alias"}) or obj.is_kind({k for k in ALL_KINDS if k != kind}):
+            return (tag + f"{where}: kind predicates (is_*, is_kind)", {"is": preds, "is_kind": is_kind, "kind": obj.kind.value}, kind)
+        rec.count("kind_predicates_compared")
+        for view, want in (("module", root), ("package", root)):
+            got, err = attempt(f"{where}: {view}", lambda: getattr(obj, view))  # noqa: B023
+            if err or got is not want:
+                return err or (tag + f"{where}: .{view} is not the module it was extracted from", repr(got), repr(want))
+        for view, want in (("filepath", filepath), ("relative_filepath", want_rel), ("relative_package_filepath", Path(rel_pkg)))[
+                :3 if index % 5 == 0 else 1]:
+            got, err = attempt(f"{where}: {view}", lambda: getattr(obj, view))  # noqa: B023
+            if err or got != want:
+                return err or (tag + f"{where}: .{view}", str(got), str(want))
+        flags = {f: bool(getattr(obj, f)) for f in ("is_init_module", "is_package", "is_subpackage", "is_namespace_package",
+                                                     "is_namespace_subpackage")}
+        want_flags = dict.fromkeys(flags, False)
+        if obj is root:
+            want_flags["is_init_module"] = want_flags["is_package"] = init_module
+        if flags != want_flags:
+            return (tag + f"{where}: module-shape predicates", flags, want_flags)
+        rec.count("owner_views_compared")
+        # -- size / truthiness / label and member filters
+        nmembers = size[id(obj)]
+        if len(obj) != nmembers or not obj:
+            return (tag + f"{where}: len() / truthiness", (len(obj), bool(obj)), (nmembers, True))
+        if not obj.has_labels(*obj.labels) or obj.has_labels(*obj.labels, "no-such-label") or (
+                obj.labels and not all(obj.has_labels(lb) for lb in obj.labels)):
+            return (tag + f"{where}: has_labels", sorted(obj.labels), "all own labels, not a foreign one")
+        if list(obj.filter_members(lambda m: True)) != list(obj.members) or obj.filter_members(lambda m: False) or list(  # noqa: ARG005
+                obj.filter_members(lambda m: m.is_alias, lambda m: True)) != [n for n, m in obj.members.items() if m.is_alias]:  # noqa: ARG005
+            return (tag + f"{where}: filter_members", None, list(obj.members))
+        problem = lines_and_docstring_views(rec, obj, root, where, chain, tag, pylines, strs, stored, collection, has_docs, attempt)
+        if problem:
+            return problem
+    return None
+
+
 def judge_module(rec, src: str, nontrivial_hint: bool | None = None, model: bool = True) -> None:  # noqa: ANN001
     import griffe
 
@@ -525,7 +781,8 @@ def judge_module(rec, src: str, nontrivial_hint: bool | None = None, model: bool
     try:
         with case_watchdog(60):
             trace = make_recorder()
-            mod = visit_source(src, "m", extensions=griffe.load_extensions(trace))
+            mine = griffe.LinesCollection()  # the caller's own collection: every object must read its lines from this very one
+            mod = visit_source(src, "m", extensions=griffe.load_extensions(trace), lines=mine)
             rec.count("modules_visited")
             rec.count("events_recorded", len(trace.events))
             problem = check_trace(mod, trace.events)
@@ -533,12 +790,40 @@ def judge_module(rec, src: str, nontrivial_hint: bool | None = None, model: bool
             if problem:
                 rec.fail(case, "event trace: " + problem, nontrivial=nontrivial)
                 return
+            # every derived view of every object (lines, source, docstring source, paths, item access, owner, predicates)
+            vpath = Path("/nonexistent-vf/m.py")
+            problem = sweep_views(rec, mod, src, tree, stored=True, how="visit() with the caller's LinesCollection", filepath=vpath,
+                                  rel_pkg="m.py", collection=mine,
+                                  pylines=src.split("\n")[:-1] if src.endswith("\n") else src.split("\n"))  # what visit_source stored
+            if not problem and len(src) % 2 == 0:
+                bare = griffe.visit("m", filepath=vpath, code=src)
+                rec.count("modules_visited_without_stored_source")
+                problem = sweep_views(rec, bare, src, tree, stored=False, how="visit() without stored source", filepath=vpath, rel_pkg="m.py",
+                                      light=True)
+            if problem:
+                rec.fail(case, "derived view: " + problem[0], observed=problem[1], expected=problem[2], nontrivial=nontrivial)
+                return
             # the same module through the real loader (built-in extensions run on_package_loaded there): never raising
             if len(src) % 3 == 0 or not model:
                 from vf.core.util import load_files
 
                 lmod, _ = load_files({"m/__init__.py": src}, "m")
                 rec.count("modules_loaded_through_loader")
+                lpath = lmod.filepath
+                if not (isinstance(lpath, Path) and lpath.parts[-2:] == ("m", "__init__.py")):
+                    rec.fail(case, "file path of a package loaded from m/__init__.py", observed=str(lpath), expected=".../m/__init__.py",
+                             nontrivial=nontrivial)
+                    return
+                problem = sweep_views(rec, lmod, src, tree, stored=True, how="load(store_source=True)", filepath=lpath,
+                                      rel_pkg="m/__init__.py", init_module=True)
+                if not problem and len(src) % 2 == 0:
+                    umod, _ = load_files({"m/__init__.py": src}, "m", store_source=False)
+                    rec.count("modules_loaded_without_stored_source")
+                    problem = sweep_views(rec, umod, src, tree, stored=False, how="load(store_source=False)", filepath=umod.filepath,
+                                          rel_pkg="m/__init__.py", init_module=True, light=True)
+                if problem:
+                    rec.fail(case, "derived view: " + problem[0], observed=problem[1], expected=problem[2], nontrivial=nontrivial)
+                    return
                 if set(lmod.members) != set(mod.members):
                     rec.fail(case, "member names differ between visit() and a load() of the same source",
                              observed=sorted(set(lmod.members) ^ set(mod.members)), nontrivial=nontrivial)
